@@ -16,3 +16,6 @@ for _p in check_queue.PROPS:
 
 from . import check_c18
 REG['C18'] = check_c18.run
+
+from . import check_macros
+REG['C17'] = check_macros.run
